@@ -637,4 +637,277 @@ theorem fileRule_eq (e : Entry) (cls : Bytes) (qfile : Option Bytes) :
     · have : (f == syntheticMarker) = false := by simpa using h
       simp [h, this]
 
+
+theorem range_eq (e : Entry) (line : Nat) :
+    (decide ((toMM e).endline > 0) &&
+      (decide (line < (toMM e).startline) || decide (line > (toMM e).endline))) =
+      !applies e.lm line := by
+  obtain ⟨obf, name, args, fc, lm, file, inl⟩ := e
+  cases lm with
+  | none => simp [toMM, memberOf, applies]
+  | some l =>
+    obtain ⟨s, en, os, oe⟩ := l
+    have : ∀ x y z w : Nat, (decide (x > 0) && (decide (line < y) || decide (line > x))) =
+        !(x == 0 || (decide (y ≤ line) && decide (line ≤ x))) := by
+      intro x y z w
+      by_cases h1 : x = 0
+      · subst h1; simp
+      · by_cases h2 : line < y
+        · have : ¬ y ≤ line := by omega
+          simp [h1, h2, this, Nat.pos_of_ne_zero h1]
+        · by_cases h3 : line > x
+          · have : ¬ line ≤ x := by omega
+            simp [h1, h3, this, Nat.pos_of_ne_zero h1]
+          · have h4 : y ≤ line := by omega
+            have h5 : line ≤ x := by omega
+            simp [h2, h3, h4, h5]
+    cases os with
+    | none => simp only [toMM, memberOf, applies]; exact this en s 0 0
+    | some o => simp only [toMM, memberOf, applies]; exact this en s 0 0
+
+theorem origLine_eq (e : Entry) (line : Nat) :
+    origLine (toMM e).originalStartline (toMM e).originalEndline (toMM e).startline line =
+      origLineOf e.lm line := by
+  obtain ⟨obf, name, args, fc, lm, file, inl⟩ := e
+  cases lm with
+  | none => simp [toMM, memberOf, origLine, origLineOf]
+  | some l =>
+    obtain ⟨s, en, os, oe⟩ := l
+    cases os with
+    | none =>
+      simp only [toMM, memberOf, origLine, origLineOf, satAdd_eq]
+      by_cases h : en = s
+      · simp [h]
+      · simp [h]
+    | some o =>
+      cases oe with
+      | none => simp [toMM, memberOf, origLine, origLineOf]
+      | some oe =>
+        simp only [toMM, memberOf, origLine, origLineOf, satAdd_eq]
+        by_cases h : oe = o
+        · simp [h]
+        · simp [h]
+
+theorem lineFrame_toMM (fr : Frame) (e : Entry) :
+    lineFrame fr (toMM e) =
+      if applies e.lm fr.line then
+        some { cls := e.fc.getD fr.cls, method := e.name, line := origLineOf e.lm fr.line,
+               file := fileOf e fr.cls fr.file, params := fr.params }
+      else none := by
+  unfold lineFrame
+  rw [range_eq, origLine_eq, toMM_originalClass, toMM_original, toMM_originalFile, fileRule_eq]
+  cases applies e.lm fr.line <;> simp
+
+theorem paramFrame_toMM (fr : Frame) (e : Entry) :
+    paramFrame fr (toMM e) =
+      { cls := e.fc.getD fr.cls, method := e.name, line := 0, file := none, params := fr.params } := by
+  unfold paramFrame
+  rw [toMM_originalClass, toMM_original]
+
+theorem filterMap_ite {α β : Type} (p : α → Bool) (f : α → β) (l : List α) :
+    l.filterMap (fun x => if p x then some (f x) else none) = (l.filter p).map f := by
+  induction l with
+  | nil => rfl
+  | cons a l ih =>
+    by_cases h : p a = true
+    · simp [h, ih]
+    · have : p a = false := by simpa using h
+      simp [this, ih]
+
+
+/-! ### the main equalities -/
+
+theorem remapClass_spec (recs : List Record) (pm : Bool) (c : Bytes) :
+    (Mapper.build recs pm).remapClass c = classOf recs c := by
+  rw [remapClass_eq]
+  unfold classOf
+  cases h : lastBlock recs c with
+  | none => rfl
+  | some b =>
+    simp only [Option.map_some]
+    rw [blockCM_original pm b (lastBlock_body_noncls recs c b h)]
+
+theorem remapMethod_spec (recs : List Record) (pm : Bool) (c m : Bytes) :
+    (Mapper.build recs pm).remapMethod c m = methodOf recs c m := by
+  rw [remapMethod_eq]
+  unfold methodOf
+  cases h : lastBlock recs c with
+  | none => rfl
+  | some b =>
+    have hb := lastBlock_body_noncls recs c b h
+    simp only
+    rw [blockCM_all pm b hb, blockCM_original pm b hb]
+    cases b.entries.filter (fun e => e.obf == m) with
+    | nil => rfl
+    | cons e rest =>
+      simp only [List.map_cons, toMM_original, List.all_map]
+      have hf : ((fun x : MemberMapping => x.original == e.name) ∘ toMM) =
+          fun x : Entry => x.name == e.name := by
+        funext x
+        simp [toMM_original]
+      rw [hf]
+
+theorem remapFrame_line (recs : List Record) (pm : Bool) (q : Frame) (hq : q.params = none) :
+    (Mapper.build recs pm).remapFrame q = framesByLine recs q := by
+  obtain ⟨qc, qm, ql, qf, qp⟩ := q
+  simp only at hq
+  subst hq
+  rw [remapFrame_eq]
+  unfold framesByLine
+  cases h : lastBlock recs qc with
+  | none => rfl
+  | some b =>
+    have hb := lastBlock_body_noncls recs qc b h
+    simp only
+    rw [blockCM_all pm b hb, blockCM_original pm b hb, List.filterMap_map]
+    have hf : (lineFrame ⟨b.orig, qm, ql, qf, none⟩ ∘ toMM) = fun e =>
+        if applies e.lm ql then
+          some ({ cls := e.fc.getD b.orig, method := e.name, line := origLineOf e.lm ql,
+                  file := fileOf e b.orig qf, params := none } : Frame)
+        else none := by
+      funext e
+      exact lineFrame_toMM _ e
+    rw [hf, filterMap_ite]
+
+theorem remapFrame_params (recs : List Record) (q : Frame) (p : Bytes) (hq : q.params = some p) :
+    (Mapper.build recs true).remapFrame q = framesByParams recs q p := by
+  obtain ⟨qc, qm, ql, qf, qp⟩ := q
+  simp only at hq
+  subst hq
+  rw [remapFrame_eq]
+  unfold framesByParams
+  cases h : lastBlock recs qc with
+  | none => rfl
+  | some b =>
+    have hb := lastBlock_body_noncls recs qc b h
+    simp only
+    rw [blockCM_bp_true b hb, blockCM_original true b hb, List.map_map]
+    have hf : (paramFrame ⟨b.orig, qm, ql, qf, some p⟩ ∘ toMM) = fun e =>
+        ({ cls := e.fc.getD b.orig, method := e.name, line := 0, file := none,
+           params := some p } : Frame) := by
+      funext e
+      exact paramFrame_toMM _ e
+    rw [hf]
+
+theorem remapFrame_params_false (recs : List Record) (q : Frame) (p : Bytes) (hq : q.params = some p) :
+    (Mapper.build recs false).remapFrame q = [] := by
+  rw [remapFrame_eq]
+  cases h : lastBlock recs q.cls with
+  | none => rfl
+  | some b =>
+    have hb := lastBlock_body_noncls recs q.cls b h
+    simp only [hq]
+    rw [blockCM_bp_false b hb]
+    rfl
+
+
+/-! ### facts about the specification used by the corollaries -/
+
+theorem mem_dedupBy {α κ : Type} [BEq κ] (key : α → κ) (l : List α) (seen : List κ) (a : α)
+    (h : a ∈ dedupBy key l seen) : a ∈ l ∧ seen.contains (key a) = false := by
+  induction l generalizing seen with
+  | nil => simp [dedupBy] at h
+  | cons x xs ih =>
+    simp only [dedupBy] at h
+    by_cases hc : seen.contains (key x) = true
+    · simp only [hc, if_true] at h
+      obtain ⟨h1, h2⟩ := ih seen h
+      exact ⟨by simp [h1], h2⟩
+    · have hc' : seen.contains (key x) = false := by simpa using hc
+      simp only [hc', Bool.false_eq_true, if_false, List.mem_cons] at h
+      cases h with
+      | inl h => subst h; exact ⟨by simp, hc'⟩
+      | inr h =>
+        obtain ⟨h1, h2⟩ := ih _ h
+        refine ⟨by simp [h1], ?_⟩
+        rw [List.contains_cons] at h2
+        simp only [Bool.or_eq_false_iff] at h2
+        exact h2.2
+
+theorem dedupBy_pairwise {α κ : Type} [BEq κ] [LawfulBEq κ] (key : α → κ) (l : List α) (seen : List κ) :
+    (dedupBy key l seen).Pairwise (fun a b => key a ≠ key b) := by
+  induction l generalizing seen with
+  | nil => simp [dedupBy]
+  | cons x xs ih =>
+    simp only [dedupBy]
+    by_cases hc : seen.contains (key x) = true
+    · simp only [hc, if_true]
+      exact ih seen
+    · have hc' : seen.contains (key x) = false := by simpa using hc
+      simp only [hc', Bool.false_eq_true, if_false, List.pairwise_cons]
+      refine ⟨?_, ih _⟩
+      intro b hb
+      have := (mem_dedupBy key xs (key x :: seen) b hb).2
+      rw [List.contains_cons] at this
+      simp only [Bool.or_eq_false_iff, beq_eq_false_iff_ne] at this
+      exact fun e => this.1 e.symm
+
+theorem lastBlock_none_of_no_cls (recs : List Record) (c : Bytes)
+    (h : ∀ r ∈ recs, ∀ o, r ≠ .cls o c) : lastBlock recs c = none := by
+  cases hl : lastBlock recs c with
+  | none => rfl
+  | some b =>
+    obtain ⟨h1, h2, _⟩ := lastBlock_some recs c b hl
+    obtain ⟨h3, _⟩ := blocksOf_mem recs b h1
+    rw [h2] at h3
+    exact absurd rfl (h _ h3 b.orig)
+
+theorem bodyOf_subset (recs : List Record) : ∀ r ∈ bodyOf recs, r ∈ recs := by
+  intro r hr
+  exact (List.takeWhile_sublist _).subset hr
+
+theorem blocksOf_body_subset (recs : List Record) (b : Block) (hb : b ∈ blocksOf recs) :
+    ∀ r ∈ b.body, r ∈ recs := by
+  induction recs with
+  | nil => simp [blocksOf] at hb
+  | cons r rest ih =>
+    by_cases hr : isCls r = true
+    · cases r with
+      | cls o ob =>
+        simp only [blocksOf, List.mem_cons] at hb
+        cases hb with
+        | inl h => subst h; intro x hx; exact List.mem_cons_of_mem _ (bodyOf_subset rest x hx)
+        | inr h => intro x hx; exact List.mem_cons_of_mem _ (ih h x hx)
+      | _ => simp [isCls] at hr
+    · have hr' : isCls r = false := by simpa using hr
+      rw [blocksOf_cons_noncls r rest hr'] at hb
+      intro x hx; exact List.mem_cons_of_mem _ (ih hb x hx)
+
+theorem entriesFrom_mem (file : Option Bytes) (body : List Record) (e : Entry)
+    (h : e ∈ entriesFrom file body) : ∃ ty, (.method ty e.name e.obf e.args e.fc e.lm) ∈ body := by
+  induction body generalizing file with
+  | nil => simp [entriesFrom] at h
+  | cons r rest ih =>
+    cases r with
+    | header k v =>
+      simp only [entriesFrom] at h
+      obtain ⟨ty, ht⟩ := ih _ h
+      exact ⟨ty, List.mem_cons_of_mem _ ht⟩
+    | cls o b =>
+      simp only [entriesFrom] at h
+      obtain ⟨ty, ht⟩ := ih _ h
+      exact ⟨ty, List.mem_cons_of_mem _ ht⟩
+    | field _ _ _ =>
+      simp only [entriesFrom] at h
+      obtain ⟨ty, ht⟩ := ih _ h
+      exact ⟨ty, List.mem_cons_of_mem _ ht⟩
+    | method ty name obf args fc lm =>
+      simp only [entriesFrom, List.mem_cons] at h
+      cases h with
+      | inl h => subst h; exact ⟨ty, by simp⟩
+      | inr h =>
+        obtain ⟨ty', ht⟩ := ih _ h
+        exact ⟨ty', List.mem_cons_of_mem _ ht⟩
+
+/-- no method record with that obfuscated name: no entry with it in any block -/
+theorem entries_filter_nil (recs : List Record) (c m : Bytes) (b : Block)
+    (hl : lastBlock recs c = some b)
+    (h : ∀ r ∈ recs, ∀ ty o a fc lm, r ≠ .method ty o m a fc lm) :
+    ∀ e ∈ b.entries, e.obf ≠ m := by
+  intro e he hm
+  obtain ⟨ty, ht⟩ := entriesFrom_mem none b.body e he
+  have := blocksOf_body_subset recs b (lastBlock_some recs c b hl).1 _ ht
+  rw [hm] at this
+  exact h _ this _ _ _ _ _ rfl
+
 end PG
